@@ -340,4 +340,57 @@ theorem decodeAny_then_decode (f d : Nat) (b : Bytes) (v : AnyVal) (r : Bytes) (
     subst e
     exact ⟨y, fun g hg => decode_fuel _ _ _ _ _ hi g (by have := decode_len _ _ _ _ _ hi; omega)⟩
 
+/-! ### `[]any` read element by element, and the devmod modules chunk -/
+
+theorem decodeElems_any (ok : CertOracle) : ∀ (xs : List AnyVal) (r : Bytes) (d f : Nat), confAnyListB d xs = true →
+    2 * (encodeAnyList xs).length + 2 ≤ f →
+    decodeElems ok f d .any xs.length (encodeAnyList xs ++ r) = some (xs.map Val.any, r)
+  | [], r, d, f, _, _ => by cases f <;> simp [decodeElems, encodeAnyList]
+  | x :: xs, r, d, f, hc, hf => by
+    simp only [confAnyListB, Bool.and_eq_true] at hc
+    simp only [encodeAnyList, List.length_append] at hf
+    have px := encodeAny_len_pos x
+    obtain ⟨f', rfl⟩ : ∃ f', f = f' + 1 := ⟨f - 1, by omega⟩
+    obtain ⟨f'', rfl⟩ : ∃ f'', f' = f'' + 1 := ⟨f' - 1, by omega⟩
+    have d1 := decodeAny_encodeAny x (encodeAnyList xs ++ r) d f'' hc.1 (by omega)
+    have d2 := decodeElems_any ok xs r d (f'' + 1) hc.2 (by omega)
+    simp only [encodeAnyList, List.length_cons, decodeElems, decodeS, List.append_assoc, d1, d2, List.map_cons]
+
+theorem chunk_texts_enc : ∀ (ms : List Val), ms.all chunkIsText = true →
+    encodeAnyList (ms.map chunkAny) = (ms.map chunkTextEnc).flatten
+  | [], _ => by simp [encodeAnyList]
+  | m :: ms, h => by
+    simp only [List.all_cons, Bool.and_eq_true] at h
+    obtain ⟨h1, h2⟩ := h
+    cases m <;> simp [chunkIsText] at h1
+    simp [encodeAnyList, chunkAny, encodeAny, chunkTextEnc, chunk_texts_enc ms h2]
+
+theorem chunk_texts_back : ∀ (ms : List Val), ms.all chunkIsText = true →
+    ((ms.map chunkAny).map Val.any).all chunkIsAnyText = true ∧
+    ((ms.map chunkAny).map Val.any).map chunkFromAny = ms
+  | [], _ => by simp
+  | m :: ms, h => by
+    simp only [List.all_cons, Bool.and_eq_true] at h
+    obtain ⟨h1, h2⟩ := h
+    cases m <;> simp [chunkIsText] at h1
+    have := chunk_texts_back ms h2
+    simp only [List.map_cons, List.all_cons, chunkAny, chunkIsAnyText, chunkFromAny, this.1, this.2]
+    simp
+
+/-- a modules chunk is written as the `[]any` array `chunkArr` -/
+theorem chunk_enc (g : Nat) (a b : Int) (ms : List Val) (h : ms.all chunkIsText = true) :
+    encodeS (g + 1) .chunk (.strct [.int a, .int b, .list ms]) = some (encodeAny (chunkArr a b ms)) := by
+  simp only [encodeS, chunkArr, encodeAny, encodeAnyList, List.length_cons, List.length_map, chunk_texts_enc ms h]
+  simp [Nat.add_comm]
+  try rw [show 1 + (ms.length + 1) = ms.length + 2 by omega]
+
+theorem chunk_shape (g : Nat) (v : Val) (b : Bytes) (h : encodeS (g + 1) .chunk v = some b) :
+    ∃ a b' ms, v = .strct [.int a, .int b', .list ms] := by
+  unfold encodeS at h
+  split at h
+  all_goals first
+    | contradiction
+    | (simp at h; done)
+    | exact ⟨_, _, _, rfl⟩
+
 end Fdo.Cbor
